@@ -204,6 +204,10 @@ fn check(program: &[u8], refs: &[Vec<u8>], flags: ConsensusFlags, sweep: bool, l
         limits.push(o.cost);
         limits.push(o.cost.saturating_sub(1));
     }
+    // the byte cost alone: after charging it the remaining budget is exactly 0, which the CLVM
+    // interpreter reads as "unlimited" unless the caller checks
+    let byte_cost = program.len() as u64 * cpb;
+    limits.extend([byte_cost.saturating_sub(1), byte_cost, byte_cost + 1]);
     if sweep {
         limits.sort_unstable();
         limits.dedup();
@@ -285,7 +289,7 @@ fn run(rep: &Report) {
     let bases = base_programs(&env);
     let fsets = flag_sets(thorough);
     let refs = ref_lists();
-    rep.set_rule("programs: (a) quoted spend lists = 2 puzzle kinds x ~108 condition letters, 8 failing puzzles, two-spend / double-spend / empty lists, 15 spend-tuple defects x spend-list terminator x output extension, 4 output shapes; (b) 11 procedural templates (cons-built lists, parent id / puzzle hash read from block references 1 and 2, apply, if on the deserialiser, raise, atom, path); each plainly serialised and back-reference compressed; x 4 block reference lists x all 32 flag subsets of {MEMPOOL_MODE, COST_CONDITIONS, SIMPLE_GENERATOR, LIMIT_SPENDS, INTERNED_GENERATOR} x limits {max block, c2, c2-1, c1, c1-1}; (c) deviation bound 1: every proper prefix, every single-byte substitution by {00,01,7f,80,fe,ff}, every single-byte insertion of {00,01,80,81,fe,ff} and every single-byte deletion of every base program of <= 200 bytes under 4 (quick) / 6 (thorough) flag sets; deviation bound 2 (two substitutions) on base programs of <= 24 (quick) / <= 64 (thorough) bytes. thorough also: every recorded mainnet block (block-*) of /repo/generator-tests below 200 kB with single-byte substitutions at 256 evenly spaced positions. distinct = distinct (program bytes)");
+    rep.set_rule("programs: (a) quoted spend lists = 2 puzzle kinds x ~108 condition letters, 8 failing puzzles, two-spend / double-spend / empty lists, 15 spend-tuple defects x spend-list terminator x output extension, 4 output shapes; (b) 11 procedural templates (cons-built lists, parent id / puzzle hash read from block references 1 and 2, apply, if on the deserialiser, raise, atom, path); each plainly serialised and back-reference compressed; x 4 block reference lists x all 32 flag subsets of {MEMPOOL_MODE, COST_CONDITIONS, SIMPLE_GENERATOR, LIMIT_SPENDS, INTERNED_GENERATOR} x limits {max block, c2, c2-1, c1, c1-1, byte cost -1/0/+1}; (c) deviation bound 1: every proper prefix, every single-byte substitution by {00,01,7f,80,fe,ff}, every single-byte insertion of {00,01,80,81,fe,ff} and every single-byte deletion of every base program of <= 200 bytes under 4 (quick) / 6 (thorough) flag sets; deviation bound 2 (two substitutions) on base programs of <= 24 (quick) / <= 64 (thorough) bytes. thorough also: every recorded mainnet block (block-*) of /repo/generator-tests below 200 kB with single-byte substitutions at 256 evenly spaced positions. distinct = distinct (program bytes)");
     rep.assume("allowed asymmetry: legacy-only rejection with CostExceeded / TooManyPairs / TooManyAtoms / OutOfMemory / stack-limit errors");
 
     // base programs, all dimensions
